@@ -112,7 +112,7 @@ impl Prop for C14 {
         for p in ["left-end", "right-end", "interior-knot", "just-above-knot", "just-below-knot", "midpoint", "random"] {
             v.push(format!("point:{}", p));
         }
-        for s in ["repeated-interior-knot", "no-interior-knots", "m>=k", "m=k-1", "outside-support", "array-form", "python-layer", "python-layer:typed-evaluators", "dual-abscissa", "dual-abscissa:curved", "matrix-form", "scale:tiny-domain", "scale:huge-domain"] {
+        for s in ["repeated-interior-knot", "no-interior-knots", "m>=k", "m=k-1", "outside-support", "array-form", "python-layer", "python-layer:typed-evaluators", "dual-abscissa", "dual-abscissa:curved", "matrix-form", "scale:tiny-domain", "scale:huge-domain", "knot-at-signed-zero:right-end", "knot-at-signed-zero:left-end", "knot-at-signed-zero:interior-knot"] {
             v.push(s.to_string());
         }
         v
@@ -121,7 +121,7 @@ impl Prop for C14 {
         tier.pick(1_000_000, 50_000_000)
     }
     fn rule(&self) -> String {
-        "Seeded knot vectors for every order k=1..6: k-fold end knots, 0..8 interior knots with multiplicities 1..k-1, spacings in [0.05,20] (integers, binary fractions, arbitrary decimals); ALL basis indices i; derivative orders m=0..k+1; evaluation points: every knot, both end points, the floats immediately above / below every knot, midpoints, 20 random points. bsplev_single_f64 and bspldnev_single_f64 against the piecewise-polynomial oracle (Cox-de Boor on coefficient vectors, polynomial differentiation, Horner) with a Horner-magnitude tolerance; the container form PPSpline::bspldnev over all points at once must return the same numbers as the single-point evaluators; non-negativity, exact zero outside the support, partition of unity to 1e-12, zero for m>=k. distinct_nontrivial = distinct (k, knot multiplicity pattern, spacing kind) x case.".into()
+        "Seeded knot vectors for every order k=1..6: k-fold end knots, 0..8 interior knots with multiplicities 1..k-1, spacings in [0.05,20] (integers, binary fractions, arbitrary decimals; one case in seven shifted so that the right end, the left end or an interior knot is exactly zero, written +0.0 or -0.0, with both zeros as evaluation points); ALL basis indices i; derivative orders m=0..k+1; evaluation points: every knot, both end points, the floats immediately above / below every knot, midpoints, 20 random points. bsplev_single_f64 and bspldnev_single_f64 against the piecewise-polynomial oracle (Cox-de Boor on coefficient vectors, polynomial differentiation, Horner) with a Horner-magnitude tolerance; the container form PPSpline::bspldnev over all points at once must return the same numbers as the single-point evaluators; non-negativity, exact zero outside the support, partition of unity to 1e-12, zero for m>=k. distinct_nontrivial = distinct (k, knot multiplicity pattern, spacing kind) x case.".into()
     }
     fn assumptions(&self) -> Vec<String> {
         vec!["derivatives are taken from the right, from the left at the right end point (as the statement says)".into(), "tolerance = 64 eps x Horner bound on absolute values of the local polynomial + 1e-14".into()]
@@ -129,8 +129,35 @@ impl Prop for C14 {
     fn run_case(&mut self, ctx: &mut Ctx, _phase: usize, idx: u64, rng: &mut Rng) {
         let k = 1 + (idx % 6) as usize;
         let (t, spacing) = if (idx / 6) % 10 == 0 { gen_knots(rng, k, 0) } else { gen_knots(rng, k, 8) };
+        // one case in seven: the sequence is shifted so that one of its knots (the right end, the left end or an
+        // interior one) is exactly zero, written +0.0 or -0.0; both zeros are then evaluation points (they are the
+        // same number, whichever way the knot was written)
+        let mut t = t;
+        let mut zero_pts: Vec<(f64, &'static str)> = vec![];
+        if (idx / 6) % 7 == 3 && !spacing.ends_with("2^s") {
+            let which = rng.below(3);
+            let mut uniq = t.clone();
+            uniq.dedup();
+            let pivot = match which {
+                0 => t[t.len() - 1],
+                1 => t[0],
+                _ => uniq[rng.usize(uniq.len())],
+            };
+            let shifted: Vec<f64> = t.iter().map(|v| v - pivot).collect();
+            // the shift must keep the knots' order and multiplicities (exact for whole and binary-fraction knots)
+            let same_shape = (1..t.len()).all(|i| (t[i] == t[i - 1]) == (shifted[i] == shifted[i - 1]) && shifted[i] >= shifted[i - 1]);
+            if same_shape {
+                let z = if rng.bool() { 0.0 } else { -0.0 };
+                t = shifted.iter().map(|v| if *v == 0.0 { z } else { *v }).collect();
+                let label = if t[t.len() - 1] == 0.0 { "right-end" } else if t[0] == 0.0 { "left-end" } else { "interior-knot" };
+                ctx.class(&format!("knot-at-signed-zero:{}", label));
+                zero_pts.push((0.0, label));
+                zero_pts.push((-0.0, label));
+            }
+        }
         let n = t.len() - k;
-        let pts = eval_points(rng, &t, 20);
+        let mut pts = eval_points(rng, &t, 20);
+        pts.extend(zero_pts);
         ctx.crumb(&format!("k={} t={:?}", k, t));
         ctx.class(&format!("order:{}", k));
         if spacing.ends_with("2^s") {
